@@ -20,7 +20,8 @@ theorem placedAt_toArray_append (w : Nat) (l1 l2 : List Instr) (cn : Mem) :
   · intro i hi
     simp [List.getElem?_append_right]
 
-theorem funcCode_len (cf : Config) (body : S) : (funcCode cf body).length = funcLen cf.checked body := by
+theorem funcCode_len (cf : Config) (params : List String) (body : S) :
+    (funcCode cf params body).length = funcLen cf.checked body := by
   unfold funcCode funcLen prologueLen
   cases hc : cf.checked <;> simp [hc, cS_len, mkCx] <;> omega
 
@@ -30,107 +31,364 @@ theorem stdlibCode_len (w B : Nat) : (stdlibCode w B).length = stdlibLength := b
     code_write_state_byte_array, code_write_bool, code_write_int]
 
 /-- the runtime library sits right behind the function -/
-theorem core_placed (cf : Config) (body : S) (hw : 2 ≤ cf.w)
+theorem core_placed (cf : Config) (params : List String) (body : S) (hw : 2 ≤ cf.w)
     (hB : funcLen cf.checked body + stdlibLength < 256 ^ cf.w) :
-    Placed (coreProg cf body) (funcLen cf.checked body) := by
+    Placed (coreProg cf params body) (funcLen cf.checked body) := by
   refine ⟨hw, ?_, hB⟩
-  have := (placedAt_toArray_append cf.w (funcCode cf body) (stdlibCode cf.w (funcLen cf.checked body)) ⟨#[]⟩).2
+  have := (placedAt_toArray_append cf.w (funcCode cf params body) (stdlibCode cf.w (funcLen cf.checked body)) ⟨#[]⟩).2
   rw [funcCode_len] at this
   exact this
 
 /-! ## the initial state -/
-section init
-variable (cf : Config) (body : S)
-
 theorem zsize (n : Nat) : (⟨Array.replicate n 0⟩ : Mem).size = n := by simp [Mem.size]
 
-theorem initMem_size : (initMem cf body).size = 5 * cf.w + cf.stackWords * cf.w + cf.w := by
-  unfold initMem
-  simp only [Mem.size_writeLE, zsize]
+theorem writeArgs_size (w F : Nat) : ∀ (args : List Int) (m : Mem) (i : Nat), (writeArgs w F m i args).size = m.size := by
+  intro args
+  induction args with
+  | nil => intro m i; rfl
+  | cons a as ih => intro m i; simp only [writeArgs]; rw [ih]; simp
 
-theorem initMem_fp (hw : 2 ≤ cf.w) (hSE : 5 * cf.w + cf.stackWords * cf.w + cf.w < 256 ^ cf.w) :
-    (initMem cf body).readLE cf.w cf.w = 5 * cf.w + cf.stackWords * cf.w + cf.w := by
+/-- `writeArgs` only touches the argument words -/
+theorem writeArgs_other (w F : Nat) : ∀ (args : List Int) (m : Mem) (i x : Nat),
+    (i + args.length + 1) * w ≤ F → (x < F - (i + args.length + 1) * w ∨ F - (i + 1) * w ≤ x) →
+    (writeArgs w F m i args).rd x = m.rd x := by
+  intro args
+  induction args with
+  | nil => intro m i x _ _; rfl
+  | cons a as ih =>
+    intro m i x hF hx
+    simp only [writeArgs, List.length_cons] at hF hx ⊢
+    have h1 := ih (m.writeLE (F - (i + 2) * w) w (wrapI (256 ^ w) a)) (i + 1) x
+    simp only [Nat.add_mul, Nat.one_mul] at hF hx h1 ⊢
+    rw [h1 (by omega) (by omega)]
+    exact Mem.rd_writeLE_other _ _ _ _ _ (by omega)
+
+/-- … and stores argument `j` in the word at offset `(i + j + 2)·w` below the frame pointer -/
+theorem writeArgs_read (w F : Nat) (hw : 0 < w) : ∀ (args : List Int) (m : Mem) (i j : Nat) (hj : j < args.length),
+    (i + args.length + 1) * w ≤ F → F ≤ m.size →
+    (writeArgs w F m i args).readLE (F - (i + j + 2) * w) w = wrapI (256 ^ w) args[j] := by
+  intro args
+  induction args with
+  | nil => intro m i j hj; simp at hj
+  | cons a as ih =>
+    intro m i j hj hF hsz
+    simp only [writeArgs]
+    simp only [List.length_cons] at hF hj
+    have hM : 0 < 256 ^ w := Nat.pow_pos (by decide)
+    cases j with
+    | zero =>
+      simp only [Nat.add_zero, List.getElem_cons_zero]
+      have hoth := writeArgs_other w F as (m.writeLE (F - (i + 2) * w) w (wrapI (256 ^ w) a)) (i + 1)
+      simp only [Nat.add_mul, Nat.one_mul] at hF hoth ⊢
+      have : (writeArgs w F (m.writeLE (F - (i * w + 2 * w)) w (wrapI (256 ^ w) a)) (i + 1) as).readLE (F - (i * w + 2 * w)) w
+          = (m.writeLE (F - (i * w + 2 * w)) w (wrapI (256 ^ w) a)).readLE (F - (i * w + 2 * w)) w :=
+        Mem.readLE_congr _ _ _ _ (fun x h1 h2 => hoth x (by omega) (Or.inr (by omega)))
+      rw [this, Mem.readLE_writeLE_same _ _ _ _ (by omega)]
+      exact Nat.mod_eq_of_lt (wrapI_lt hM a)
+    | succ j =>
+      simp only [List.getElem_cons_succ]
+      have := ih (m.writeLE (F - (i + 2) * w) w (wrapI (256 ^ w) a)) (i + 1) j (by omega)
+        (by simp only [Nat.add_mul, Nat.one_mul] at hF ⊢; omega) (by simp; omega)
+      rw [show i + 1 + j + 2 = i + (j + 1) + 2 from by omega] at this
+      exact this
+
+theorem initMem_size (cf : Config) (args : List Int) (body : S) :
+    (initMem cf args body).size = 5 * cf.w + cf.stackWords * cf.w + args.length * cf.w + cf.w := by
   unfold initMem
-  simp only
-  rw [Mem.readLE_writeLE_disj _ _ _ _ _ _ (by omega),
-    Mem.readLE_writeLE_same _ _ _ _ (by simp only [Mem.size_writeLE, zsize]; omega)]
+  simp only [writeArgs_size, Mem.size_writeLE, zsize]
+
+section init
+variable (cf : Config) (args : List Int) (body : S)
+
+/-- address of the frame pointer of the entry point -/
+abbrev F0 : Nat := 5 * cf.w + cf.stackWords * cf.w + args.length * cf.w + cf.w
+
+theorem F0_args : (0 + args.length + 1) * cf.w ≤ F0 cf args := by
+  unfold F0; simp only [Nat.zero_add, Nat.add_mul, Nat.one_mul]; omega
+
+theorem initMem_low (hw : 2 ≤ cf.w) (x k : Nat) (hx : x + k ≤ 5 * cf.w) :
+    (initMem cf args body).readLE x k =
+      ((((⟨Array.replicate (F0 cf args) 0⟩ : Mem).writeLE 0 cf.w (5 * cf.w)).writeLE cf.w cf.w (F0 cf args)).writeLE (F0 cf args - cf.w) cf.w
+        (funcLen cf.checked body + off_all_is_win)).readLE x k := by
+  unfold initMem
+  exact Mem.readLE_congr _ _ _ _ (fun y h1 h2 => writeArgs_other cf.w _ args _ 0 y (F0_args cf args)
+    (Or.inl (by
+      have : (0 + args.length + 1) * cf.w = args.length * cf.w + cf.w := by simp only [Nat.zero_add, Nat.add_mul, Nat.one_mul]
+      unfold F0 at *; omega)))
+
+theorem initMem_fp (hw : 2 ≤ cf.w) (hSE : F0 cf args < 256 ^ cf.w) :
+    (initMem cf args body).readLE cf.w cf.w = F0 cf args := by
+  rw [initMem_low cf args body hw cf.w cf.w (by omega)]
+  rw [Mem.readLE_writeLE_disj _ _ _ _ _ _ (by unfold F0; omega),
+    Mem.readLE_writeLE_same _ _ _ _ (by simp only [Mem.size_writeLE, zsize]; unfold F0; omega)]
   exact Nat.mod_eq_of_lt hSE
 
-theorem initMem_ap (hw : 2 ≤ cf.w) : (initMem cf body).readLE 0 cf.w = 5 * cf.w := by
-  unfold initMem
-  simp only
-  rw [Mem.readLE_writeLE_disj _ _ _ _ _ _ (by omega), Mem.readLE_writeLE_disj _ _ _ _ _ _ (by omega),
-    Mem.readLE_writeLE_same _ _ _ _ (by simp only [zsize]; omega)]
+theorem initMem_ap (hw : 2 ≤ cf.w) : (initMem cf args body).readLE 0 cf.w = 5 * cf.w := by
+  rw [initMem_low cf args body hw 0 cf.w (by omega)]
+  rw [Mem.readLE_writeLE_disj _ _ _ _ _ _ (by unfold F0; omega), Mem.readLE_writeLE_disj _ _ _ _ _ _ (by omega),
+    Mem.readLE_writeLE_same _ _ _ _ (by simp only [zsize]; unfold F0; omega)]
   exact Nat.mod_eq_of_lt (by have := mul_w_lt_pow cf.w hw; omega)
 
 theorem initMem_ra (hw : 2 ≤ cf.w) (hB : funcLen cf.checked body + stdlibLength < 256 ^ cf.w) :
-    (initMem cf body).readLE (5 * cf.w + cf.stackWords * cf.w + cf.w - cf.w) cf.w
-      = funcLen cf.checked body + off_all_is_win := by
+    (initMem cf args body).readLE (F0 cf args - cf.w) cf.w = funcLen cf.checked body + off_all_is_win := by
   unfold initMem
-  simp only
-  rw [Mem.readLE_writeLE_same _ _ _ _ (by simp only [Mem.size_writeLE, zsize]; omega)]
+  have : (writeArgs cf.w (F0 cf args) ((((⟨Array.replicate (F0 cf args) 0⟩ : Mem).writeLE 0 cf.w (5 * cf.w)).writeLE cf.w cf.w (F0 cf args)).writeLE (F0 cf args - cf.w) cf.w
+        (funcLen cf.checked body + off_all_is_win)) 0 args).readLE (F0 cf args - cf.w) cf.w
+      = ((((⟨Array.replicate (F0 cf args) 0⟩ : Mem).writeLE 0 cf.w (5 * cf.w)).writeLE cf.w cf.w (F0 cf args)).writeLE (F0 cf args - cf.w) cf.w
+        (funcLen cf.checked body + off_all_is_win)).readLE (F0 cf args - cf.w) cf.w :=
+    Mem.readLE_congr _ _ _ _ (fun y h1 h2 => writeArgs_other cf.w _ args _ 0 y (F0_args cf args)
+      (Or.inr (by simp only [Nat.zero_add, Nat.one_mul]; exact h1)))
+  show (writeArgs cf.w (F0 cf args) _ 0 args).readLE (F0 cf args - cf.w) cf.w = _
+  rw [this, Mem.readLE_writeLE_same _ _ _ _ (by simp only [Mem.size_writeLE, zsize]; unfold F0; omega)]
   exact Nat.mod_eq_of_lt (by simp [off_all_is_win, stdlibLength] at *; omega)
+
+theorem initMem_arg (hw : 2 ≤ cf.w) (j : Nat) (hj : j < args.length) :
+    (initMem cf args body).readLE (F0 cf args - (j + 2) * cf.w) cf.w = wrapI (256 ^ cf.w) args[j] := by
+  unfold initMem
+  have := writeArgs_read cf.w (F0 cf args) (by omega) args
+    ((((⟨Array.replicate (F0 cf args) 0⟩ : Mem).writeLE 0 cf.w (5 * cf.w)).writeLE cf.w cf.w (F0 cf args)).writeLE (F0 cf args - cf.w) cf.w
+        (funcLen cf.checked body + off_all_is_win)) 0 j hj (F0_args cf args)
+    (by simp only [Mem.size_writeLE, zsize]; exact Nat.le_refl _)
+  rw [Nat.zero_add] at this
+  exact this
 end init
+
+/-! ## the entry frame: parameters bound to the arguments -/
+theorem contains_paramGam (w : Nat) : ∀ (params : List String) (i : Nat) (y : String),
+    ((paramGam w i params).map Prod.fst).contains y = params.contains y := by
+  intro params
+  induction params with
+  | nil => intro i y; rfl
+  | cons x xs ih => intro i y; simp only [paramGam, List.map_cons, List.contains_cons, ih]
+
+theorem look_paramGam_ge (w : Nat) : ∀ (params : List String) (i : Nat) (y : String),
+    params.contains y = true → (i + 2) * w ≤ look (paramGam w i params) y ∧ look (paramGam w i params) y ≤ (i + params.length + 1) * w := by
+  intro params
+  induction params with
+  | nil => intro i y h; simp at h
+  | cons x xs ih =>
+    intro i y h
+    simp only [paramGam, List.length_cons]
+    by_cases hyx : y = x
+    · subst hyx
+      rw [look_cons_same]
+      simp only [Nat.add_mul, Nat.one_mul]; omega
+    · rw [look_cons_other _ _ _ _ hyx]
+      have hy : xs.contains y = true := by
+        simp only [List.contains_cons] at h
+        have : (y == x) = false := by simpa using hyx
+        simpa [this] using h
+      have := ih (i + 1) y hy
+      simp only [Nat.add_mul, Nat.one_mul] at this ⊢; omega
+
+theorem disj_paramGam (w : Nat) : ∀ (params : List String) (i : Nat), params.Nodup → Disj w (paramGam w i params) := by
+  intro params
+  induction params with
+  | nil => intro i _ x y hx; simp [paramGam] at hx
+  | cons x xs ih =>
+    intro i hnd y z hy hz hyz
+    rw [contains_paramGam] at hy hz
+    have hxs : xs.Nodup := (List.nodup_cons.1 hnd).2
+    simp only [paramGam]
+    by_cases hyx : y = x
+    · subst hyx
+      have hzy : z ≠ y := fun e => hyz e.symm
+      have hz' : xs.contains z = true := by
+        simp only [List.contains_cons] at hz
+        have : (z == y) = false := by simpa using hzy
+        simpa [this] using hz
+      rw [look_cons_same, look_cons_other _ _ _ _ hzy]
+      have := (look_paramGam_ge w xs (i + 1) z hz').1
+      simp only [Nat.add_mul, Nat.one_mul] at this ⊢
+      left; omega
+    · have hy' : xs.contains y = true := by
+        simp only [List.contains_cons] at hy
+        have : (y == x) = false := by simpa using hyx
+        simpa [this] using hy
+      rw [look_cons_other _ _ _ _ hyx]
+      by_cases hzx : z = x
+      · subst hzx
+        rw [look_cons_same]
+        have := (look_paramGam_ge w xs (i + 1) y hy').1
+        simp only [Nat.add_mul, Nat.one_mul] at this ⊢
+        right; omega
+      · have hz' : xs.contains z = true := by
+          simp only [List.contains_cons] at hz
+          have : (z == x) = false := by simpa using hzx
+          simpa [this] using hz
+        rw [look_cons_other _ _ _ _ hzx]
+        exact ih (i + 1) hxs y z (by rw [contains_paramGam]; exact hy') (by rw [contains_paramGam]; exact hz') hyz
+
+theorem vars_paramGam (w : Nat) (m : Mem) (F : Nat) : ∀ (params : List String) (args : List Int) (i : Nat),
+    params.Nodup → args.length = params.length →
+    (∀ j (hj : j < args.length), m.readLE (F - (i + j + 2) * w) w = wrapI (256 ^ w) args[j]) →
+    VarsOK w (paramGam w i params) (argEnv (256 ^ w) params args) m F ((i + params.length + 1) * w) := by
+  intro params
+  induction params with
+  | nil => intro args i _ _ _ x hx; simp [paramGam] at hx
+  | cons x xs ih =>
+    intro args i hnd hlen hm y hy
+    cases args with
+    | nil => simp at hlen
+    | cons a as =>
+      rw [contains_paramGam] at hy
+      have hb := look_paramGam_ge w (x :: xs) i y hy
+      refine ⟨by have := hb.1; simp only [Nat.add_mul] at this; omega, hb.2, ?_⟩
+      simp only [paramGam, argEnv]
+      by_cases hyx : y = x
+      · subst hyx
+        rw [look_cons_same, upd_same]
+        have := hm 0 (by simp)
+        simpa using this
+      · rw [look_cons_other _ _ _ _ hyx, upd_other _ _ _ _ hyx]
+        have hy' : xs.contains y = true := by
+          simp only [List.contains_cons] at hy
+          have : (y == x) = false := by simpa using hyx
+          simpa [this] using hy
+        have := ih as (i + 1) (List.nodup_cons.1 hnd).2 (by simpa using hlen)
+          (fun j hj => by
+            have := hm (j + 1) (by simp; omega)
+            rw [show i + 1 + j + 2 = i + (j + 1) + 2 from by omega]
+            simpa using this) y (by rw [contains_paramGam]; exact hy')
+        exact this.2.2
+
+theorem map_fst_paramGam (w : Nat) : ∀ (params : List String) (i : Nat), (paramGam w i params).map Prod.fst = params := by
+  intro params
+  induction params with
+  | nil => intro i; rfl
+  | cons x xs ih => intro i; simp [paramGam, ih]
 
 /-- the flags a run ends with -/
 def terminalEvs : Res → List Ev
   | .div0 => [Ev.flag "division_by_zero", Ev.flag "error"]
   | _ => [Ev.flag "win"]
 
-theorem core_correct (cf : Config) (body : S) (hw : 2 ≤ cf.w)
-    (hB : funcLen cf.checked body + stdlibLength < 256 ^ cf.w)
-    (hSE : 5 * cf.w + cf.stackWords * cf.w + cf.w < 256 ^ cf.w)
-    (hwf : wfS [] body = true) (hyl : youLevel body = true)
-    (fuel : Nat) (env' : Env) (tr : List Ev) (res : Res)
-    (hex : exec (256 ^ cf.w) (8 * cf.w) fuel (fun _ => 0) body = some (env', tr, res))
-    (hck : res = .div0 → cf.checked = true)
-    (hroom : pkS cf.w cf.w body ≤ (cf.stackWords + 1) * cf.w) :
-    ∃ mEnd, Exec (sphinx (coreProg cf body)) (coreInit cf body) (tr ++ terminalEvs res)
-        ⟨tntPc (funcLen cf.checked body), mEnd⟩ ∧
-      ¬ Halts (sphinx (coreProg cf body)) (coreInit cf body) := by
-  have lib := core_placed cf body hw hB
+/-- the prologue of a checked build: compares the free stack `fp - ap` with the frame peak -/
+theorem prologue_steps (cf : Config) (params : List String) (args : List Int) (body : S) (hw : 2 ≤ cf.w)
+    (hck : cf.checked = true)
+    (hB : funcLen cf.checked body + stdlibLength < 256 ^ cf.w) (hSE : F0 cf args < 256 ^ cf.w)
+    (hpkM : pkS cf.w (entryOff cf.w params) body < 256 ^ cf.w) :
+    let p := coreProg cf params body
+    ∃ m1, Keep cf.w (initMem cf args body) m1 (5 * cf.w) ∧
+      Sphinx.step p ⟨0, initMem cf args body⟩ = .jump ⟨1, initMem cf args body⟩ ⟨5, initMem cf args body⟩ ∧
+      Sphinx.step p ⟨1, initMem cf args body⟩ = .next ⟨2, m1⟩ none ∧
+      Sphinx.step p ⟨2, m1⟩ =
+        (if pkS cf.w (entryOff cf.w params) body ≤ cf.stackWords * cf.w + args.length * cf.w + cf.w then .halt
+         else .next ⟨3, m1⟩ none) ∧
+      Sphinx.step p ⟨3, m1⟩ = .jump ⟨4, m1⟩ ⟨funcLen cf.checked body + off_stack_overflow, m1⟩ ∧
+      Sphinx.step p ⟨4, m1⟩ = .halt := by
+  intro p
   have h64 := mul_w_lt_pow cf.w hw
   have hM := pow_ge2 cf.w hw
-  generalize hp : coreProg cf body = p at *
+  have hpw : p.w = cf.w := rfl
+  have hcodeP : PlacedAt p 0 (funcCode cf params body) :=
+    (placedAt_toArray_append cf.w (funcCode cf params body) (stdlibCode cf.w (funcLen cf.checked body)) ⟨#[]⟩).1
+  have hpro := hcodeP
+  unfold funcCode at hpro
+  rw [hck] at hpro
+  simp only [if_true] at hpro
+  have hpro1 := hpro.append.1
+  have c0 := hpro1 0 (by simp); have c1 := hpro1 1 (by simp); have c2 := hpro1 2 (by simp)
+  have c3 := hpro1 3 (by simp); have c4 := hpro1 4 (by simp)
+  simp only [List.getElem_cons_succ, List.getElem_cons_zero, Nat.add_zero, Nat.zero_add] at c0 c1 c2 c3 c4
+  have hsz := initMem_size cf args body
+  have hF : F0 cf args = 5 * cf.w + cf.stackWords * cf.w + args.length * cf.w + cf.w := rfl
+  have s0 := step_j (p := p) (m := initMem cf args body) c0 (ev_imm 5)
+  rw [show 5 % p.M = 5 from Nat.mod_eq_of_lt (by unfold Prog.M; rw [hpw]; omega)] at s0
+  have hfp : evalArg p ⟨1, initMem cf args body⟩ (.st (mkCx cf body).fp) = some (F0 cf args) := by
+    show evalArg p _ (.st p.w) = _
+    rw [ev_st (by unfold Prog.M; rw [hpw]; omega) (by rw [hpw, hsz]; omega), hpw, initMem_fp cf args body hw hSE]
+  have hap : evalArg p ⟨1, initMem cf args body⟩ (.st 0) = some (5 * cf.w) := by
+    rw [ev_st (by unfold Prog.M; rw [hpw]; omega) (by rw [hpw, hsz]; omega), hpw, initMem_ap cf args body hw]
+  have s1 := step_alu (p := p) (m := initMem cf args body) c1 hfp hap alu_sub
+    (by show 3 * cf.w < p.M; unfold Prog.M; rw [hpw]; omega) (by show 3 * cf.w + p.w ≤ _; rw [hpw, hsz]; omega)
+  rw [show (F0 cf args + p.M - 5 * cf.w % p.M) % p.M = cf.stackWords * cf.w + args.length * cf.w + cf.w from by
+    unfold Prog.M; rw [hpw, sub_mod_small (by rw [hF]; omega) hSE]; rw [hF]; omega] at s1
+  refine ⟨(initMem cf args body).writeLE (mkCx cf body).r1 p.w (cf.stackWords * cf.w + args.length * cf.w + cf.w),
+    Keep.write _ _ _ _ _ _ (by show 2 * cf.w ≤ 3 * cf.w; omega) (by show 3 * cf.w + cf.w ≤ _; omega), s0, s1, ?_, ?_, ?_⟩
+  · have hr1 : evalArg p ⟨2, (initMem cf args body).writeLE (mkCx cf body).r1 p.w (cf.stackWords * cf.w + args.length * cf.w + cf.w)⟩
+        (.st (mkCx cf body).r1) = some (cf.stackWords * cf.w + args.length * cf.w + cf.w) := by
+      show evalArg p _ (.st (3 * cf.w)) = _
+      rw [ev_st (by unfold Prog.M; rw [hpw]; omega) (by simp; rw [hpw, hsz]; omega)]
+      show some (((initMem cf args body).writeLE (3 * cf.w) cf.w _).readLE (3 * cf.w) cf.w) = _
+      rw [Mem.readLE_writeLE_same _ _ _ _ (by rw [hsz]; omega)]
+      rw [Nat.mod_eq_of_lt (by rw [hF] at hSE; omega)]
+    have s2 := step_hcond (p := p) c2 hr1 (ev_imm _)
+    have hmax : pkS cf.w (entryOff cf.w params) body % (mkCx cf body).M % p.M = pkS cf.w (entryOff cf.w params) body := by
+      show pkS cf.w (entryOff cf.w params) body % 256 ^ cf.w % p.M = _
+      unfold Prog.M; rw [hpw, Nat.mod_mod]; exact Nat.mod_eq_of_lt hpkM
+    rw [hmax] at s2
+    simpa [haltCond] using s2
+  · have s3 := step_j (p := p) (m := (initMem cf args body).writeLE (mkCx cf body).r1 p.w (cf.stackWords * cf.w + args.length * cf.w + cf.w))
+      c3 (ev_imm _)
+    rw [show ((mkCx cf body).B + off_stack_overflow) % p.M = funcLen cf.checked body + off_stack_overflow from
+      Nat.mod_eq_of_lt (by unfold Prog.M; rw [hpw]; show funcLen cf.checked body + off_stack_overflow < _
+                           simp [off_stack_overflow, stdlibLength] at *; omega)] at s3
+    exact s3
+  · exact step_halt (p := p) c4
+
+theorem core_correct (cf : Config) (params : List String) (args : List Int) (body : S) (hw : 2 ≤ cf.w)
+    (hB : funcLen cf.checked body + stdlibLength < 256 ^ cf.w) (hSE : F0 cf args < 256 ^ cf.w)
+    (hnd : params.Nodup) (hlen : args.length = params.length)
+    (hwf : wfS params body = true) (hyl : youLevel body = true)
+    (fuel : Nat) (env' : Env) (tr : List Ev) (res : Res)
+    (hex : exec (256 ^ cf.w) (8 * cf.w) fuel (argEnv (256 ^ cf.w) params args) body = some (env', tr, res))
+    (hck : res = .div0 → cf.checked = true)
+    (hroom : pkS cf.w (entryOff cf.w params) body ≤ cf.stackWords * cf.w + args.length * cf.w + cf.w) :
+    ∃ mEnd, Exec (sphinx (coreProg cf params body)) (coreInit cf args body) (tr ++ terminalEvs res)
+        ⟨tntPc (funcLen cf.checked body), mEnd⟩ ∧
+      ¬ Halts (sphinx (coreProg cf params body)) (coreInit cf args body) := by
+  have lib := core_placed cf params body hw hB
+  have h64 := mul_w_lt_pow cf.w hw
+  have hM := pow_ge2 cf.w hw
+  have hpro := fun hc hpk => prologue_steps cf params args body hw hc hB hSE hpk
+  generalize hp : coreProg cf params body = p at *
   have hpw : p.w = cf.w := by rw [← hp]; rfl
   generalize hBdef : funcLen cf.checked body = B at *
+  have hF : F0 cf args = 5 * cf.w + cf.stackWords * cf.w + args.length * cf.w + cf.w := rfl
+  have heo : entryOff cf.w params = params.length * cf.w + cf.w := by
+    unfold entryOff; simp only [Nat.add_mul, Nat.one_mul]
   -- frame facts of the initial memory
-  have hSEe : 5 * cf.w + cf.stackWords * cf.w + cf.w = 5 * cf.w + (cf.stackWords + 1) * cf.w := by
-    rw [Nat.add_mul]; omega
-  have fr0 : Fr p (initMem cf body) (5 * cf.w + cf.stackWords * cf.w + cf.w) ((cf.stackWords + 1) * cf.w) :=
-    ⟨by rw [hpw]; exact initMem_fp cf body hw hSE, by rw [initMem_size]; exact Nat.le_refl _,
-     by rw [hpw]; exact hSE, by rw [hpw]; omega⟩
-  have hra0 : (initMem cf body).readLE (5 * cf.w + cf.stackWords * cf.w + cf.w - p.w) p.w = B + off_all_is_win := by
-    rw [hpw, ← hBdef]; exact initMem_ra cf body hw (by rw [hBdef]; exact hB)
-  have hinv0 : SInv p [] (fun _ => 0) (initMem cf body) (5 * cf.w + cf.stackWords * cf.w + cf.w)
-      ((cf.stackWords + 1) * cf.w) cf.w (B + off_all_is_win) :=
-    ⟨fr0, fun x hx => by simp at hx, hra0⟩
+  have fr0 : Fr p (initMem cf args body) (F0 cf args) (cf.stackWords * cf.w + args.length * cf.w + cf.w) :=
+    ⟨by rw [hpw]; exact initMem_fp cf args body hw hSE, by rw [initMem_size]; exact Nat.le_refl _,
+     by rw [hpw]; exact hSE, by rw [hpw, hF]; omega⟩
+  have hra0 : (initMem cf args body).readLE (F0 cf args - p.w) p.w = B + off_all_is_win := by
+    rw [hpw, ← hBdef]; exact initMem_ra cf args body hw (by rw [hBdef]; exact hB)
+  have hvars0 : VarsOK p.w (paramGam cf.w 0 params) (argEnv (256 ^ cf.w) params args) (initMem cf args body) (F0 cf args)
+      (entryOff cf.w params) := by
+    have := vars_paramGam cf.w (initMem cf args body) (F0 cf args) params args 0 hnd hlen
+      (fun j hj => by rw [Nat.zero_add]; exact initMem_arg cf args body hw j hj)
+    rw [hpw]; unfold entryOff; rw [Nat.zero_add] at this; exact this
+  have hinv0 : SInv p (paramGam cf.w 0 params) (argEnv (256 ^ cf.w) params args) (initMem cf args body) (F0 cf args)
+      (cf.stackWords * cf.w + args.length * cf.w + cf.w) (entryOff cf.w params) (B + off_all_is_win) :=
+    ⟨fr0, hvars0, hra0⟩
   -- the function body
-  have hcodeP : PlacedAt p 0 (funcCode cf body) := by
-    rw [← hp]; exact (placedAt_toArray_append cf.w (funcCode cf body) (stdlibCode cf.w (funcLen cf.checked body)) ⟨#[]⟩).1
+  have hcodeP : PlacedAt p 0 (funcCode cf params body) := by
+    rw [← hp]; exact (placedAt_toArray_append cf.w (funcCode cf params body) (stdlibCode cf.w (funcLen cf.checked body)) ⟨#[]⟩).1
   have hcx : mkCx cf body = cxOf p cf.checked B := by rw [← hp, ← hBdef]; rfl
-  have hbodyP : PlacedAt p (prologueLen cf.checked) (cS (cxOf p cf.checked B) [] (prologueLen cf.checked) cf.w body) := by
+  have hbodyP : PlacedAt p (prologueLen cf.checked)
+      (cS (cxOf p cf.checked B) (paramGam cf.w 0 params) (prologueLen cf.checked) (entryOff cf.w params) body) := by
     have := hcodeP
     unfold funcCode at this
     rw [hcx] at this
     have h2 := this.append.2
     cases hc : cf.checked <;> simp [hc, prologueLen] at h2 ⊢ <;> exact h2
-  have hbodyLen : prologueLen cf.checked + (cS (cxOf p cf.checked B) [] (prologueLen cf.checked) cf.w body).length = B := by
+  have hbodyLen : prologueLen cf.checked +
+      (cS (cxOf p cf.checked B) (paramGam cf.w 0 params) (prologueLen cf.checked) (entryOff cf.w params) body).length = B := by
     rw [cS_len, ← hBdef]; rfl
-  have hbody := cS_ok (ck := cf.checked) lib (5 * cf.w + cf.stackWords * cf.w + cf.w) ((cf.stackWords + 1) * cf.w)
+  have hbody := cS_ok (ck := cf.checked) lib (F0 cf args) (cf.stackWords * cf.w + args.length * cf.w + cf.w)
     (B + off_all_is_win) (by rw [hpw]; simp [off_all_is_win, stdlibLength] at *; omega)
-    fuel body [] (fun _ => 0) (prologueLen cf.checked) cf.w
+    fuel body (paramGam cf.w 0 params) (argEnv (256 ^ cf.w) params args) (prologueLen cf.checked) (entryOff cf.w params)
   rw [hpw] at hbody
+  have hnd' : res ≠ .defeat := exec_no_defeat _ _ _ _ _ _ _ _ hyl hex
   -- after the body: win or the division_by_zero stub
-  have hfin : ∀ (m1 : Mem), Reach (sphinx p) ⟨prologueLen cf.checked, m1⟩ tr ⟨prologueLen cf.checked, m1⟩ → True := fun _ _ => trivial
-  have hend : ∀ (m0 : Mem), SInv p [] (fun _ => 0) m0 (5 * cf.w + cf.stackWords * cf.w + cf.w)
-        ((cf.stackWords + 1) * cf.w) cf.w (B + off_all_is_win) →
+  have hend : ∀ (m0 : Mem), SInv p (paramGam cf.w 0 params) (argEnv (256 ^ cf.w) params args) m0 (F0 cf args)
+        (cf.stackWords * cf.w + args.length * cf.w + cf.w) (entryOff cf.w params) (B + off_all_is_win) →
       ∃ mEnd, Reach (sphinx p) ⟨prologueLen cf.checked, m0⟩ (tr ++ terminalEvs res) ⟨tntPc B, mEnd⟩ := by
     intro m0 hi0
-    have hnd : res ≠ .defeat := exec_no_defeat _ _ _ _ _ _ _ _ hyl hex
-    have hsafe : ∀ st', Post p B (B + off_all_is_win) [] env' (5 * cf.w + cf.stackWords * cf.w + cf.w)
-        ((cf.stackWords + 1) * cf.w) cf.w
-        (prologueLen cf.checked + (cS (cxOf p cf.checked B) [] (prologueLen cf.checked) cf.w body).length) res st' →
+    have hsafe : ∀ st', Post p B (B + off_all_is_win) (paramGam cf.w 0 params) env' (F0 cf args)
+        (cf.stackWords * cf.w + args.length * cf.w + cf.w) (entryOff cf.w params)
+        (prologueLen cf.checked + (cS (cxOf p cf.checked B) (paramGam cf.w 0 params) (prologueLen cf.checked) (entryOff cf.w params) body).length) res st' →
         ¬ Halts (sphinx p) st' := by
       intro st' hp'
       obtain ⟨pc', m'⟩ := st'
@@ -142,9 +400,9 @@ theorem core_correct (cf : Config) (body : S) (hw : 2 ≤ cf.w)
         subst hpc; exact tn.1
       | returned => simp only [Post] at hp'; subst hp'; exact tn.1
       | div0 => simp only [Post] at hp'; subst hp'; exact tn.2.2.2.1
-      | defeat => exact absurd rfl hnd
-    obtain ⟨st', r, hpost⟩ := (hbody m0 env' tr res hbodyP (by omega) hi0 (fun _ _ h => by simp at h) hwf hroom
-      (Nat.le_refl _) hex hck (Or.inr ⟨hyl, hsafe⟩)).2 hnd
+      | defeat => exact absurd rfl hnd'
+    obtain ⟨st', r, hpost⟩ := (hbody m0 env' tr res hbodyP (by omega) hi0 (disj_paramGam cf.w params 0 hnd)
+      (by rw [map_fst_paramGam]; exact hwf) hroom (by rw [heo]; omega) hex hck (Or.inr ⟨hyl, hsafe⟩)).2 hnd'
     obtain ⟨pc', m'⟩ := st'
     cases res with
     | norm =>
@@ -160,120 +418,47 @@ theorem core_correct (cf : Config) (body : S) (hw : 2 ≤ cf.w)
       simp only [Post] at hpost
       subst hpost
       exact ⟨m', r.trans (error_stub_reach lib m').2.1⟩
-    | defeat => exact absurd rfl hnd
+    | defeat => exact absurd rfl hnd'
   -- the prologue
-  have hreach : ∃ mEnd, Reach (sphinx p) (coreInit cf body) (tr ++ terminalEvs res) ⟨tntPc B, mEnd⟩ := by
+  have hreach : ∃ mEnd, Reach (sphinx p) (coreInit cf args body) (tr ++ terminalEvs res) ⟨tntPc B, mEnd⟩ := by
     cases hc : cf.checked with
     | false =>
       rw [hc] at hend
-      simpa [coreInit, prologueLen] using hend (initMem cf body) hinv0
+      simpa [coreInit, prologueLen] using hend (initMem cf args body) hinv0
     | true =>
       rw [hc] at hend
-      have hpro := hcodeP
-      unfold funcCode at hpro
-      rw [hcx, hc] at hpro
-      simp only [if_true] at hpro
-      have hpro1 := hpro.append.1
-      have c0 := hpro1 0 (by simp); have c1 := hpro1 1 (by simp); have c2 := hpro1 2 (by simp)
-      simp only [List.getElem_cons_succ, List.getElem_cons_zero, Nat.add_zero, Nat.zero_add] at c0 c1 c2
-      have s0 := step_j (m := initMem cf body) c0 (ev_imm 5)
-      rw [show 5 % p.M = 5 from Nat.mod_eq_of_lt (by unfold Prog.M; rw [hpw]; omega)] at s0
-      have hfp : evalArg p ⟨0 + 1, initMem cf body⟩ (.st (cxOf p true B).fp) = some (5 * cf.w + cf.stackWords * cf.w + cf.w) := by
-        show evalArg p _ (.st p.w) = _
-        rw [ev_st (by unfold Prog.M; rw [hpw]; omega) (by rw [hpw, initMem_size]; omega), fr0.fp]
-      have hap : evalArg p ⟨0 + 1, initMem cf body⟩ (.st 0) = some (5 * cf.w) := by
-        rw [ev_st (by unfold Prog.M; rw [hpw]; omega) (by rw [hpw, initMem_size]; omega), hpw, initMem_ap cf body hw]
-      have s1 := step_alu (m := initMem cf body) c1 hfp hap alu_sub
-        (by show 3 * p.w < p.M; unfold Prog.M; rw [hpw]; omega) (by show 3 * p.w + p.w ≤ _; rw [hpw, initMem_size]; omega)
-      rw [show (5 * cf.w + cf.stackWords * cf.w + cf.w + p.M - 5 * cf.w % p.M) % p.M = (cf.stackWords + 1) * cf.w from by
-        unfold Prog.M; rw [hpw, sub_mod_small (by omega) hSE]; rw [Nat.add_mul]; omega] at s1
-      generalize hm1 : (initMem cf body).writeLE (cxOf p true B).r1 p.w ((cf.stackWords + 1) * cf.w) = m1 at *
-      have hr1 : evalArg p ⟨0 + 1 + 1, m1⟩ (.st (cxOf p true B).r1) = some ((cf.stackWords + 1) * cf.w) := by
-        show evalArg p _ (.st (3 * p.w)) = _
-        rw [ev_st (by unfold Prog.M; rw [hpw]; omega) (by rw [← hm1]; simp; rw [hpw, initMem_size]; omega), ← hm1]
-        show some (((initMem cf body).writeLE (3 * p.w) p.w _).readLE (3 * p.w) p.w) = _
-        rw [Mem.readLE_writeLE_same _ _ _ _ (by rw [hpw, initMem_size]; omega)]
-        rw [Nat.mod_eq_of_lt (by rw [hpw]; omega)]
-      have s2 := step_hcond (m := m1) c2 hr1 (ev_imm _)
-      have hmax : pkS cf.w cf.w body % (cxOf p true B).M % p.M = pkS cf.w cf.w body := by
-        show pkS cf.w cf.w body % 256 ^ p.w % p.M = _
-        unfold Prog.M; rw [Nat.mod_mod, hpw]; exact Nat.mod_eq_of_lt (by omega)
-      rw [hmax] at s2
-      simp only [haltCond, ge_iff_le, hroom, decide_true, if_true] at s2
-      have hh : Halts (sphinx p) ⟨0 + 1, initMem cf body⟩ :=
+      obtain ⟨m1, k1, s0, s1, s2, _, _⟩ := hpro hc (by omega)
+      rw [if_pos hroom] at s2
+      have hh : Halts (sphinx p) ⟨1, initMem cf args body⟩ :=
         Halts.next (sys := sphinx p) s1 (Halts.halt (sys := sphinx p) s2)
       have j := Reach.jump_taken' (sys := sphinx p) s0 hh
-      have k0 : Keep p.w (initMem cf body) (initMem cf body) 0 := Keep.refl _ _ _
-      obtain ⟨mEnd, r⟩ := hend (initMem cf body) hinv0
+      obtain ⟨mEnd, r⟩ := hend (initMem cf args body) hinv0
       exact ⟨mEnd, by simpa [coreInit, prologueLen] using j.trans r⟩
   obtain ⟨mEnd, r⟩ := hreach
   have nh := tnt_never_halts lib mEnd
   exact ⟨mEnd, (r.exec nh).1, (r.exec nh).2⟩
 
 /-- checked build, stack smaller than the frame peak: `stack_overflow` before anything else happens -/
-theorem core_overflow (cf : Config) (body : S) (hw : 2 ≤ cf.w) (hck : cf.checked = true)
-    (hB : funcLen cf.checked body + stdlibLength < 256 ^ cf.w)
-    (hSE : 5 * cf.w + cf.stackWords * cf.w + cf.w < 256 ^ cf.w)
-    (hsmall : (cf.stackWords + 1) * cf.w < pkS cf.w cf.w body) (hpkM : pkS cf.w cf.w body < 256 ^ cf.w) :
-    ∃ mEnd, Exec (sphinx (coreProg cf body)) (coreInit cf body) [Ev.flag "stack_overflow", Ev.flag "error"]
+theorem core_overflow (cf : Config) (params : List String) (args : List Int) (body : S) (hw : 2 ≤ cf.w)
+    (hck : cf.checked = true)
+    (hB : funcLen cf.checked body + stdlibLength < 256 ^ cf.w) (hSE : F0 cf args < 256 ^ cf.w)
+    (hsmall : cf.stackWords * cf.w + args.length * cf.w + cf.w < pkS cf.w (entryOff cf.w params) body)
+    (hpkM : pkS cf.w (entryOff cf.w params) body < 256 ^ cf.w) :
+    ∃ mEnd, Exec (sphinx (coreProg cf params body)) (coreInit cf args body) [Ev.flag "stack_overflow", Ev.flag "error"]
         ⟨tntPc (funcLen cf.checked body), mEnd⟩ ∧
-      ¬ Halts (sphinx (coreProg cf body)) (coreInit cf body) := by
-  have lib := core_placed cf body hw hB
-  have h64 := mul_w_lt_pow cf.w hw
-  have hM := pow_ge2 cf.w hw
-  generalize hp : coreProg cf body = p at *
-  have hpw : p.w = cf.w := by rw [← hp]; rfl
-  generalize hBdef : funcLen cf.checked body = B at *
-  have hcodeP : PlacedAt p 0 (funcCode cf body) := by
-    rw [← hp]; exact (placedAt_toArray_append cf.w (funcCode cf body) (stdlibCode cf.w (funcLen cf.checked body)) ⟨#[]⟩).1
-  have hcx : mkCx cf body = cxOf p cf.checked B := by rw [← hp, ← hBdef]; rfl
-  have hpro := hcodeP
-  unfold funcCode at hpro
-  rw [hcx, hck] at hpro
-  simp only [if_true] at hpro
-  have hpro1 := hpro.append.1
-  have c0 := hpro1 0 (by simp); have c1 := hpro1 1 (by simp); have c2 := hpro1 2 (by simp)
-  have c3 := hpro1 3 (by simp); have c4 := hpro1 4 (by simp)
-  simp only [List.getElem_cons_succ, List.getElem_cons_zero, Nat.add_zero, Nat.zero_add] at c0 c1 c2 c3 c4
-  have hfpv : (initMem cf body).readLE p.w p.w = 5 * cf.w + cf.stackWords * cf.w + cf.w := by
-    rw [hpw]; exact initMem_fp cf body hw hSE
-  have s0 := step_j (m := initMem cf body) c0 (ev_imm 5)
-  rw [show 5 % p.M = 5 from Nat.mod_eq_of_lt (by unfold Prog.M; rw [hpw]; omega)] at s0
-  have hfp : evalArg p ⟨0 + 1, initMem cf body⟩ (.st (cxOf p true B).fp) = some (5 * cf.w + cf.stackWords * cf.w + cf.w) := by
-    show evalArg p _ (.st p.w) = _
-    rw [ev_st (by unfold Prog.M; rw [hpw]; omega) (by rw [hpw, initMem_size]; omega), hfpv]
-  have hap : evalArg p ⟨0 + 1, initMem cf body⟩ (.st 0) = some (5 * cf.w) := by
-    rw [ev_st (by unfold Prog.M; rw [hpw]; omega) (by rw [hpw, initMem_size]; omega), hpw, initMem_ap cf body hw]
-  have s1 := step_alu (m := initMem cf body) c1 hfp hap alu_sub
-    (by show 3 * p.w < p.M; unfold Prog.M; rw [hpw]; omega) (by show 3 * p.w + p.w ≤ _; rw [hpw, initMem_size]; omega)
-  rw [show (5 * cf.w + cf.stackWords * cf.w + cf.w + p.M - 5 * cf.w % p.M) % p.M = (cf.stackWords + 1) * cf.w from by
-    unfold Prog.M; rw [hpw, sub_mod_small (by omega) hSE]; rw [Nat.add_mul]; omega] at s1
-  generalize hm1 : (initMem cf body).writeLE (cxOf p true B).r1 p.w ((cf.stackWords + 1) * cf.w) = m1 at *
-  have hr1 : evalArg p ⟨0 + 1 + 1, m1⟩ (.st (cxOf p true B).r1) = some ((cf.stackWords + 1) * cf.w) := by
-    show evalArg p _ (.st (3 * p.w)) = _
-    rw [ev_st (by unfold Prog.M; rw [hpw]; omega) (by rw [← hm1]; simp; rw [hpw, initMem_size]; omega), ← hm1]
-    show some (((initMem cf body).writeLE (3 * p.w) p.w _).readLE (3 * p.w) p.w) = _
-    rw [Mem.readLE_writeLE_same _ _ _ _ (by rw [hpw, initMem_size]; omega)]
-    rw [Nat.mod_eq_of_lt (by rw [hpw]; have : (cf.stackWords + 1) * cf.w = cf.stackWords * cf.w + cf.w := by rw [Nat.add_mul]; omega
-                             omega)]
-  have s2 := step_hcond (m := m1) c2 hr1 (ev_imm _)
-  have hmax : pkS cf.w cf.w body % (cxOf p true B).M % p.M = pkS cf.w cf.w body := by
-    show pkS cf.w cf.w body % 256 ^ p.w % p.M = _
-    unfold Prog.M; rw [Nat.mod_mod, hpw]; exact Nat.mod_eq_of_lt hpkM
-  rw [hmax] at s2
-  have hnot : ¬ (pkS cf.w cf.w body ≤ (cf.stackWords + 1) * cf.w) := by omega
-  simp only [haltCond, ge_iff_le, hnot, decide_false, Bool.false_eq_true, if_false] at s2
-  have s3 := step_j (m := m1) c3 (ev_imm (B + off_stack_overflow))
-  rw [show (B + off_stack_overflow) % p.M = B + off_stack_overflow from
-    Nat.mod_eq_of_lt (by unfold Prog.M; rw [hpw]; simp [off_stack_overflow, stdlibLength] at *; omega)] at s3
-  have s4 := step_halt (m := m1) c4
+      ¬ Halts (sphinx (coreProg cf params body)) (coreInit cf args body) := by
+  have lib := core_placed cf params body hw hB
+  obtain ⟨m1, k1, s0, s1, s2, s3, s4⟩ := prologue_steps cf params args body hw hck hB hSE hpkM
+  rw [if_neg (by omega)] at s2
+  generalize hp : coreProg cf params body = p at *
   have j3 := Reach.jump_taken (sys := sphinx p) s3 s4
   have rso := (error_stub_reach lib m1).1
-  have r1 : Reach (sphinx p) ⟨0 + 1, initMem cf body⟩ [Ev.flag "stack_overflow", Ev.flag "error"] ⟨tntPc B, m1⟩ := by
+  have r1 : Reach (sphinx p) ⟨1, initMem cf args body⟩ [Ev.flag "stack_overflow", Ev.flag "error"]
+      ⟨tntPc (funcLen cf.checked body), m1⟩ := by
     have := (Reach.of_next (sys := sphinx p) s1).trans ((Reach.of_next (sys := sphinx p) s2).trans (j3.trans rso))
     simpa [evl] using this
   have nh := tnt_never_halts lib m1
-  have nh1 : ¬ Halts (sphinx p) ⟨0 + 1, initMem cf body⟩ := (r1.exec nh).2
+  have nh1 : ¬ Halts (sphinx p) ⟨1, initMem cf args body⟩ := (r1.exec nh).2
   have r0 := Reach.jump_not_taken (sys := sphinx p) s0 (fun hh => absurd hh nh1)
   have r := r0.trans r1
   refine ⟨m1, ?_, ?_⟩
